@@ -316,3 +316,6 @@ def _concrete_validation(env, cfg):
         n_ok += ok
     env.notes['accepted_metric_classes'] = names
     env.claim('accepted_classes_found', len(names) >= 30)
+
+
+META['explanation'] += ' The abstract metric may also reject a pair (update raises, state unchanged): the error propagates and later calls are unaffected; one prediction dict mutated in place between calls.'
